@@ -53,6 +53,9 @@ func (f *Frame) doCall(instr ssa.Instruction, cc *ssa.CallCommon, st *State, rt 
 	if bi, ok := cc.Value.(*ssa.Builtin); ok {
 		return f.builtin(bi.Name(), cc, args, st, rt, pos)
 	}
+	for i := range args {
+		args[i] = e.materializePtr(f, st, args[i])
+	}
 	if cc.IsInvoke() {
 		recv := f.val(cc.Value)
 		e.check(f, st, "no-panic.nilcall", "method call on nil interface", sNot(sEq(recv.S, "iface.nil")), pos)
@@ -513,6 +516,7 @@ func (f *Frame) applyContract(c *Contract, callee *ssa.Function, cc *ssa.CallCom
 		e.assumeTypeInv(st, r)
 	}
 	e.contractLocksPost(f, st, c, ctx, pos)
+	e.writeBack(st, args)
 	return res
 }
 
@@ -942,4 +946,54 @@ func globalAddrEscapes(e *Engine, g *ssa.Global) bool {
 		}
 	}
 	return esc
+}
+
+// materializePtr: a pointer into the interior of an object (field of a struct, local cell) that must be passed as a value
+// gets a fresh address whose pointee is a snapshot of the location's current content. Reads through it see the content at
+// this point; writes through it are not reflected back (noted as an abstraction).
+func (e *Engine) materializePtr(f *Frame, st *State, v Val) Val {
+	if v.S != "" || v.Loc == nil || v.T == nil {
+		return v
+	}
+	p, ok := v.T.Underlying().(*types.Pointer)
+	if !ok {
+		return v
+	}
+	if isLockType(p.Elem()) {
+		return v
+	}
+	if v.Loc.Kind == LElem && v.Loc.Idx == "" {
+		return v
+	}
+	id := e.alloc(st)
+	srt := e.sortOf(p.Elem())
+	st.heapP[srt] = e.define("hp", e.heapPSort(srt), fmt.Sprintf("(store %s %s %s)", e.getHeapP(st, srt), id, e.load(st, v.Loc)))
+	e.note("interior pointer passed as a value in %s: the callee sees a snapshot of the pointee (writes through it are not reflected)", funcKey(f.fn))
+	nv := v
+	nv.S = id
+	if e.matBack == nil {
+		e.matBack = map[string]*Loc{}
+	}
+	e.matBack[id] = v.Loc
+	return nv
+}
+
+// writeBack: copy-in/copy-out for interior pointers handed to a callee with a contract: what the callee left in the
+// snapshot object is stored back into the real location (sound when the callee reaches the object only through that pointer).
+func (e *Engine) writeBack(st *State, args []Val) {
+	for _, a := range args {
+		if a.S == "" || e.matBack == nil {
+			continue
+		}
+		l, ok := e.matBack[a.S]
+		if !ok {
+			continue
+		}
+		p, ok := a.T.Underlying().(*types.Pointer)
+		if !ok {
+			continue
+		}
+		srt := e.sortOf(p.Elem())
+		e.store(st, l, fmt.Sprintf("(select %s %s)", e.getHeapP(st, srt), a.S))
+	}
 }
